@@ -90,6 +90,8 @@ type SessSpec struct {
 	RollbackAlso map[int]int    `json:"rollback_also,omitempty"` // vb -> a second request index that is answered ROLLBACK(R) as well
 	// HoldConsAtStart: the consumer blocks inside its very first delivery (until "releasecons"); installed before Start()
 	HoldConsAtStart bool `json:"hold_cons_at_start,omitempty"`
+	// DiskMarkers: the node announces every snapshot as an on-disk (backfill) snapshot
+	DiskMarkers bool `json:"disk_markers,omitempty"`
 	// FileSparse: the pre-written checkpoint file holds the PreStore entries only (written under a narrower assignment)
 	FileSparse bool `json:"file_sparse,omitempty"`
 	// NoteReqs: every stream request is also reported to the parent process at once (it survives a death of the child)
@@ -425,6 +427,7 @@ func RunSession(spec *SessSpec) *Trace {
 		}
 		env.Sim.SetObserve(uint16(vb), ix, uu, v[1])
 	}
+	env.Sim.DiskMarkers = spec.DiskMarkers
 	for vb, h := range spec.Highs {
 		env.Sim.SetHigh(uint16(vb), h)
 	}
